@@ -4,6 +4,7 @@ import ast
 from ..model import Func, AnalysisError
 from .. import queries as Q
 from .c11 import _param_field
+from . import opt
 
 EXPLANATION = (
     'R16.1: for every record class the composition attribute -> JSON key '
@@ -619,8 +620,8 @@ def r16_5(ctx, rc):
     W = ctx.E.func(C + '.write')
     ser = C + '._operation_to_json'
     funcs = [f for f in _cache_helpers(ctx, W)
-             if f.qualname not in (ser, C + '._complex_operation_to_json',
-                                   C + '._simple_operation_to_json')]
+             if f.qualname not in (ser, C + opt('._complex_operation_to_json'),
+                                   C + opt('._simple_operation_to_json'))]
     sites = _ser_sites(ctx, funcs, ser)
     key = 'every root operation is serialised'
     if not sites:
@@ -756,7 +757,7 @@ def r16_6(ctx, rc):
     funcs = _cache_helpers(ctx, W)
     key = 'non-root set covers every registered operation'
     ser_sites = _ser_sites(ctx, [f for f in funcs if f.qualname not in (
-        ser, C + '._complex_operation_to_json')], ser)
+        ser, C + opt('._complex_operation_to_json'))], ser)
     ser_iter = None
     if ser_sites:
         k0, n0, f0 = ser_sites[0]
